@@ -25,7 +25,7 @@ def fresh_hash(cname, path):
     return h1, h2
 
 
-FILE_OPS = [("w", 0), ("w", 1), ("a", 0), ("a", 1), ("cp", 0, 1), ("cp", 1, 0), ("rm", 0), ("rm", 1), ("touch", 0), ("extw", 0), ("extrm", 0), ("exttouch", 0),
+FILE_OPS = [("w", 0), ("w", 1), ("a", 0), ("a", 1), ("cp", 0, 1), ("cp", 1, 0), ("rm", 0), ("rm", 1), ("touch", 0), ("extw", 0), ("extrm", 0), ("exttouch", 0), ("exttouch-sub", 0),
             ("parent-becomes-file",)]  # the directory holding path 1 is removed and a regular file takes its name
 
 
@@ -60,6 +60,7 @@ def run_file_history(arg):
         size = 0
         t = 1000
         bytes_seen = {}
+        states_seen = {}
         n_hist += 1
         for i, op in enumerate(hist):
             kinds = "+".join(sorted({o_[0] for o_ in hist[: i + 1]}))
@@ -114,6 +115,13 @@ def run_file_history(arg):
                         continue
                     t += 10
                     os.utime(paths[op[1]], (t, t))
+                elif k == "exttouch-sub":
+                    # the modification time moves by 0.3 ms inside one millisecond: another filesystem state
+                    if not os.path.exists(paths[op[1]]):
+                        continue
+                    st = os.stat(paths[op[1]])
+                    ns = st.st_mtime_ns + (300_000 if st.st_mtime_ns % 1_000_000 < 500_000 else -300_000)
+                    os.utime(paths[op[1]], ns=(st.st_atime_ns, ns))
                 n_ops += 1
             except Exception as e:  # noqa: BLE001
                 viol.append((f"{cname}:op-raises:{op[0]}:{type(e).__name__}", case, f"{cname} {hist[: i + 1]}: {e!r}"))
@@ -141,6 +149,15 @@ def run_file_history(arg):
                 if valid != want:
                     viol.append((f"{cname}:is_valid-wrong:says-{valid}", case,
                                  f"{cname} {hist[: i + 1]}: is_valid()={valid} but recorded hash {'==' if o._hash == f1 else '!='} current hash"))
+                if not content and not immutable and os.path.exists(p):
+                    # independent view of "the current filesystem state" of a stat-hashed file: size and modification time
+                    st = os.stat(p)
+                    fp = (st.st_size, st.st_mtime_ns // 1000)  # microseconds: redun hashes the float st_mtime, whose resolution is ~0.24 us today
+                    for (j2, fp2), h2 in states_seen.items():
+                        if j2 == j and fp2 != fp and h2 == f1:
+                            viol.append((f"{cname}:hash-same-for-different-file-states:{op[0]}", case,
+                                         f"{cname} {hist[: i + 1]}: (size, mtime in us) {fp2} and {fp} of one path hash equal"))
+                    states_seen[(j, fp)] = f1
                 if content and os.path.exists(p):
                     data = open(p, "rb").read()
                     key = (j, data)
@@ -283,9 +300,9 @@ def run(ctx):
         "states": hist, "transitions": ops, "traces_validated_against_impl": hist, "history_length": L,
         "distinct_validity_outcomes": len(outcomes), "exhaustive": True,
         "rule": f"for each of 3 file classes all histories of {L} operations over 2 paths (write, append, copy_to, remove, touch through redun; the directory of one path replaced by a regular file; "
-        "external write / remove / touch) and for each of 6 directory / file-set classes all histories over a directory tree (member write, remove, "
+        "external write / remove / touch / touch moving the mtime by 0.3 ms inside one millisecond) and for each of 6 directory / file-set classes all histories over a directory tree (member write, remove, "
         "touch, sub-directory member, Dir.copy_to, rmdir, mkdir) on a real filesystem; after every operation: hashing never raises and is "
         "deterministic, an object written/copied through redun has the fresh hash, is_valid() <=> recorded hash == current hash (always true for "
-        "immutable classes), content hashes change exactly when bytes change",
+        "immutable classes), content hashes change exactly when bytes change, stat-hashed files never hash equal for two different (size, mtime) states of one path",
         "samples": [{"class": w[0], "first_op": list(w[1])} for w in work_f[:2] + work_d[:1]],
     }, "assumptions": ["local filesystem only; every write uses a size never used before, touches use explicit logical times"]}
